@@ -17,7 +17,8 @@ MODULE = "DaliVerif.Props.C10"
 EXES = ["m_memseq"]
 GEN = True
 THEOREMS = ["write_refused_early", "write_ok_spec", "write_ok_spec_unlock", "writeAll_spec",
-            "write_not_writable", "write_fault_loud", "writeLoop_spec", "tables_ok"]
+            "write_not_writable", "write_fault_loud", "write_stall_loud", "writeLoop_spec", "tables_ok",
+            "tables_consecutive"]
 TRUSTED = [
     "hand-written model Model/MemSeq.lean (writeRaw) of dali/memory/location.py (tied by this lock-step correspondence)",
     "specification unit Spec/MemUnit.lean = my reading of IEC 62386-102 §9.10 (DESIGN Appendix A); the only oracle",
@@ -54,6 +55,9 @@ def run_write(ls, sc):
     lines = [mu.unit_line(sc["unit"])]
     if sc.get("fault"):
         lines.append(sc["fault"])
+    if sc.get("stall"):
+        # the unit does not advance DTR0 on these frames (indices into the command stream)
+        lines.append("stall " + ",".join(str(k) for k in sc["stall"]))
     call = sc["call"]
     b, v = mu.find_value(call["value"])
     addr = mu.addr_obj(call["arg"], call["a"])
@@ -115,6 +119,35 @@ def fault_runs(ls, corr, suite, sc, key, trace, rng, limit=None):
                     corr.violate(key + ":silent", sc2, "a documented exception", end,
                                  "fault on %s answered %s was reported as success" % (name, f))
             n += 1
+    return n
+
+
+WRITES = ("WriteMemoryLocation", "WriteMemoryLocationNoReply")
+
+
+def stall_runs(ls, corr, suite, sc, key, trace, rng):
+    """The unit fails to advance DTR0 on selected frames only (every single write frame k, all the
+    data writes, random pairs).  The oracle is the post-condition on the unit's final memory:
+    a normal return must have stored exactly the bytes at exactly the locations."""
+    wpos = [k for k, t in enumerate(trace) if t[0] in WRITES]
+    data = [k for k, t in enumerate(trace) if t[0] == "WriteMemoryLocation"]
+    sets = [[k] for k in wpos]
+    if len(data) > 1:
+        sets.append(list(data))                 # no data write advances, the lock-byte writes do
+        sets.append(list(data[:-1]))
+        sets.append(sorted(rng.sample(data, 2)))
+    if len(wpos) > 2:
+        sets.append(sorted(rng.sample(wpos, 2)))
+    n = 0
+    for ks in sets:
+        sc2 = dict(sc)
+        sc2["stall"] = ks
+        end, _ = one(ls, corr, suite, sc2, key)
+        what = "all-data" if ks == data and len(ks) > 1 else \
+            "+".join(sorted(set(("data" if trace[k][0] == "WriteMemoryLocation" else "lockbyte") for k in ks)))
+        corr.bump("stall:%s:%s" % (what, end))
+        corr.nontrivial((sc["call"]["value"], "stall", what, len(ks), end, bool(sc["call"].get("force_unlock"))))
+        n += 1
     return n
 
 
@@ -205,6 +238,40 @@ def _correspond(ctx, corr, rng, T, ls):
     corr.count(suite + "_faults", nf)
     corr.sample({"suite": suite, "value": vk, "outcome": end})
 
+    # ---- a unit that does not advance DTR0 on ONE frame (every write frame k) / on some frames ----------
+    # every writable value, with and without force_unlock, feedback checked; data bytes differ from
+    # the old cell contents and from their neighbours, so a byte that lands one location low shows
+    suite = "write_raw_stall"
+    ns = 0
+    for key, b, v in vals:
+        if not all(l.type_.name in WRITEABLE for l in v.locations):
+            continue
+        vk = key + "." + v.name
+        locs = [l.address for l in v.locations]
+        for fu in (None, True):
+            for rep in range(2 if T else 1):
+                arg = rng.choice(["g", "d"])
+                a = rng.randrange(64)
+                u = mu.mk_unit(b, rng, kind="random", dev=(arg == "d"), addr=a,
+                               lockByte=rng.choice([0xFF, 0xFF, 0x55, 0xAA, 0x13]))
+                raw = []
+                for l in locs:
+                    old = int(u["cells"][l][1:]) if u["cells"][l] != "-" else 0
+                    x = rng.randrange(256)
+                    while x == old or (raw and x == raw[-1]) or x in (0x55, 0xFF):
+                        x = rng.randrange(256)
+                    raw.append(x)
+                sc = {"unit": u, "call": {"kind": "write_raw", "arg": arg, "a": a, "value": vk, "raw": raw,
+                                          "force_unlock": fu}}
+                end, trace = one(ls, corr, suite, sc, "write_raw:stall")
+                ns += 1
+                if not end.startswith("ok"):
+                    corr.violate("write_raw:conforming-refused", sc, "ok", end,
+                                 "a conforming unit with every cell writable must accept the write")
+                    continue
+                ns += stall_runs(ls, corr, suite, sc, "write_raw:stall", trace, rng)
+    corr.count(suite, ns)
+
     # ---- write(): value -> raw by the real conversion, then the same sequence -------------------------
     suite = "write"
     n = 0
@@ -252,7 +319,8 @@ def replay(ctx, payload):
         state = ls.ask("state")
     finally:
         ls.close()
-    print("call:", sc["call"], sc.get("fault", ""))
+    print("call:", sc["call"], sc.get("fault", ""),
+          ("unit does not advance DTR0 on frame(s) %s" % sc["stall"]) if sc.get("stall") else "")
     print("unit: bank %d last %d lockByte %d advance %s unlock %s" % (
         sc["unit"]["bank"], sc["unit"]["last"], sc["unit"]["lockByte"], sc["unit"].get("advance", True),
         sc["unit"].get("unlock", 0x55)))
